@@ -967,15 +967,7 @@ def run_vector_case(s, g, m, d, mshapes, dshapes, method):
                     break
     else:
         if doc is not None:
-            m1 = [max(1, np.ndim(x)) for x in marrs]
-            d1 = [max(1, np.ndim(x)) for x in darrs]
-            curved = s.get('det', 'flat') in ('cyl', 'sph')
-            if curved and len(set(np.shape(np.atleast_1d(x)) for x in darrs)) > 1:
-                problems.append(('raises curved-detector mixed-shape dparam', st))
-            elif max(m1) != max(d1):
-                problems.append(('raises unequal-ndim mparam/dparam', st))
-            else:
-                problems.append(('raises', st))
+            problems.append(('raises', st))
     return st, shape, problems
 
 
@@ -1010,10 +1002,8 @@ def run_vector(ctx, specs):
             m, d = vector_case(rng, s, g, mshapes, dshapes)
             for method in (['pos', 'd2s'] + (['d2sraw'] if cls in ('fan', 'cone') else [])):
                 stv, shape, problems = run_vector_case(s, g, m, d, mshapes, dshapes, method)
-                curved = s.get('det', 'flat') in ('cyl', 'sph')
-                lines.append('shape m={} d={} ndim={} curved={}'.format(
-                    ';'.join(shp(x) for x in mshapes), ';'.join(shp(x) for x in dshapes), ndim,
-                    int(curved)))
+                lines.append('shape m={} d={} ndim={}'.format(
+                    ';'.join(shp(x) for x in mshapes), ';'.join(shp(x) for x in dshapes), ndim))
                 cases.append((s, mshapes, dshapes, method, stv, shape, problems, m, d))
     outs = core.run_driver('C19', lines)
     for (s, mshapes, dshapes, method, stv, shape, problems, m, d), ans in zip(cases, outs):
@@ -1147,10 +1137,9 @@ def run_getitem_case(s, slname, sl):
         if s['how'] == 'frommatrix':
             line = 'getitem3 how=frommatrix m={} dflt=0,1,0 t={} n=2'.format(vec(np.array(s['Q'])), vec(tvec))
         elif 'pos' in s:
-            line = 'getitem3 how=ctor p={} aliased={} dflt=0,1,0 t={} n=2'.format(
-                vec(s['pos']), int(bool(s.get('ndarray_args'))), vec(tvec))
+            line = 'getitem3 how=ctor p={} dflt=0,1,0 t={} n=2'.format(vec(s['pos']), vec(tvec))
         else:
-            line = 'getitem3 how=ctor p=none aliased=0 dflt={} t={} n=2'.format(vec(poslog['before'] - tvec), vec(tvec))
+            line = 'getitem3 how=ctor p=none dflt={} t={} n=2'.format(vec(poslog['before'] - tvec), vec(tvec))
     return problems, line, poslog
 
 
